@@ -123,11 +123,13 @@ func ScalePath64(path Path64, scale float64) Path64 {
 }
 
 func ScaleRectD(rec RectD, scale float64) Rect64 {
+	// quantise the bounds exactly like path coordinates (ScalePathDToPath64 rounds)
+	corners := ScalePathDToPath64(PathD{{X: rec.left, Y: rec.top}, {X: rec.right, Y: rec.bottom}}, scale)
 	return Rect64{
-		left:   int64(rec.left * scale),
-		top:    int64(rec.top * scale),
-		right:  int64(rec.right * scale),
-		bottom: int64(rec.bottom * scale),
+		left:   corners[0].X,
+		top:    corners[0].Y,
+		right:  corners[1].X,
+		bottom: corners[1].Y,
 	}
 }
 
